@@ -19,9 +19,12 @@ def opaque_result(ex, st, ins, what):
     t = ins.get('t')
     if not t or t == '()':
         return None
-    na = ex.m.fresh('alloc_x', ex.m.Int)
-    st.assume(na >= st.alloc)
-    st.alloc = na
+    has_refs = any(srt == 'Any' or (srt == 'Int' and (ex.m.kind(tk) in ('pointer', 'map', 'slice', 'signature', 'chan')))
+                   for (pth, srt, tk) in ex.m.layout(t))
+    if has_refs:
+        na = ex.m.fresh('alloc_x', ex.m.Int)
+        st.assume(na >= st.alloc)
+        st.alloc = na
     if ex.m.types[t]['kind'] == 'tuple':
         vals = []
         for e in ex.m.types[t]['elems']:
